@@ -179,6 +179,17 @@ CHECKS['C18'] = dict(
          'time_unit without index, and the powertrain-level export forwards each unit to the same-named parameter. '
          'Numeric interpolation results are not decided.', design='4/C18', engine='ast')
 
+CHECKS['C07'] = dict(
+    technique='units-of-measure analysis with symbolic unit factors: every evaluable function of the package (329) and every '
+              'value of the solver IR is evaluated in SI-magnitude space; a stored/returned/compared/passed term that still '
+              'depends on the factor of an object\'s own unit is a violation; AST rule against converted raw numbers as '
+              'exact-match keys; fail-closed census of all .value reads; exact unit tables and to() (shared with C05)',
+    text='Necessary condition for unit-independence, decided for all inputs and all unit assignments at once (units are '
+         'symbols): no raw magnitude whose unit is not pinned reaches a result, decision, lookup key or recorded value anywhere '
+         'outside the units package; with C05/C06 (quantity operators are unit-blind) this is the complete list of ways an '
+         'input\'s unit can leak. Rounding at decision thresholds is excluded by the property.',
+    design='4/C07', engine='sa.sx + sa.solver_ir')
+
 NOT_APPLICABLE = {
     'C04': 'limit statement (error = O(dt) as dt -> 0) against an analytic oracle; no sound static argument in reach '
            'bounds a global discretisation error. Its code-shape ingredients (consistent first-order integrator, torque '
